@@ -320,6 +320,9 @@ def check(ctx):
     for n in range(2, N + 1):
         for E in all_digraphs(n): cases.append(("closure", E, ["exhaustive-%d" % n]))
     cases.append(("closure", [], ["empty"]))
+    # two cycles joined by a path through a node that lies on neither; a ring with a tail; a figure of eight
+    for E_ in ([(1, 2), (2, 1), (2, 3), (3, 4), (4, 5), (5, 4)], [(1, 2), (2, 3), (3, 1), (3, 4), (4, 5)], [(1, 2), (2, 3), (3, 1), (3, 4), (4, 5), (5, 3), (5, 6), (6, 7), (7, 8), (8, 7)]):
+        cases.append(("closure", E_, ["cyclic", "bridge"]))
     for _ in range(150 if ctx.quick() else 3000):
         E, f = random_graph(rng, 14 if ctx.quick() else 40); cases.append(("closure", E, f))
     reqs = []; meta = []
